@@ -8,7 +8,7 @@ import z3
 # S1 - flat closed CFGs
 
 
-def s1_space(N: int, entry: int | None = None, max_edges: int | None = None, skeleton=None, tag: str = ""):
+def s1_space(N: int, entry: int | None = None, max_edges: int | None = None, skeleton=None, tag: str = "", dag: bool = False):
     """Closed CFG over N blocks.
 
     Block i has ordered successor slots a_i, b_i in {-1, 0..N-1}; -1 = absent,
@@ -54,6 +54,10 @@ def s1_space(N: int, entry: int | None = None, max_edges: int | None = None, ske
                 z3.Or([z3.And(edge(i, s), q[s] < q[i]) for s in range(N) if s != i]),
             )
         )
+    if dag:
+        # forward edges only (a topological labelling): acyclic graphs, many more edges affordable
+        for i in range(N):
+            cs += [z3.Or(A[i] == -1, A[i] > i), z3.Or(B[i] == -1, B[i] > i)]
     if max_edges is not None:
         cnt = z3.Sum([z3.If(A[i] != -1, 1, 0) + z3.If(B[i] != -1, 1, 0) for i in range(N)])
         cs.append(cnt <= max_edges)
